@@ -1227,6 +1227,85 @@ func stmtContext(path []ast.Node, call *ast.CallExpr) (kind string, stmt ast.Stm
 	return "", nil, false
 }
 
+// splitShortCircuit handles a helper call in the right operand of the top
+// level && / || of an if condition, where it cannot be hoisted in front of the
+// statement. The if is rewritten so that the operand gets a condition of its
+// own, which the next round can hoist from:
+//
+//	if A || B {S} else {T}   =>   if A {S} else if B {S} else {T}
+//	if A && B {S} else {T}   =>   if A { if B {S} else {T} } else {T}
+//
+// S (or T) is duplicated, which is harmless for behaviour; it is done only
+// for small blocks without labels or function literals.
+func (n *normalizer) splitShortCircuit(path []ast.Node, call *ast.CallExpr) (*ast.IfStmt, string) {
+	var child ast.Node = call
+	for i := 1; i < len(path); i++ {
+		switch p := path[i].(type) {
+		case *ast.ParenExpr:
+		case *ast.UnaryExpr:
+			if p.Op != token.NOT {
+				return nil, ""
+			}
+		case *ast.BinaryExpr:
+			if (p.Op == token.LAND || p.Op == token.LOR) && p.Y == child && i+1 < len(path) {
+				ifs, ok := path[i+1].(*ast.IfStmt)
+				if !ok || ast.Node(ifs.Cond) != ast.Node(p) {
+					return nil, ""
+				}
+				small := func(b ast.Node) bool {
+					if b == nil {
+						return true
+					}
+					bad := false
+					ast.Inspect(b, func(nd ast.Node) bool {
+						switch nd.(type) {
+						case *ast.LabeledStmt, *ast.FuncLit:
+							bad = true
+						}
+						return !bad
+					})
+					_, s, e := n.offsets(b.Pos(), b.End())
+					return !bad && e-s < 400
+				}
+				A, B, S := n.exprText(p.X), n.exprText(p.Y), n.exprText(ifs.Body)
+				T := ""
+				if ifs.Else != nil {
+					T = n.exprText(ifs.Else)
+				}
+				init := ""
+				if ifs.Init != nil {
+					init = n.exprText(ifs.Init) + "; "
+				}
+				if p.Op == token.LOR {
+					if !small(ifs.Body) {
+						return nil, ""
+					}
+					out := "if " + init + A + " " + S + " else if " + B + " " + S
+					if T != "" {
+						out += " else " + T
+					}
+					return ifs, out
+				}
+				if !small(ifs.Else) {
+					return nil, ""
+				}
+				out := "if " + init + A + " { if " + B + " " + S
+				if T != "" {
+					out += " else " + T + " } else " + T
+				} else {
+					out += " }"
+				}
+				return ifs, out
+			}
+			return nil, ""
+		default:
+			return nil, ""
+		}
+		child = path[i]
+	}
+	return nil, ""
+}
+
 // inlineRound inlines the leaf newcomers; reports whether anything changed.
 func (n *normalizer) inlineRound() bool {
 	inv := loadInventory()
@@ -1317,6 +1396,17 @@ func (n *normalizer) inlineRound() bool {
 				continue
 			}
 			kind, stmt, nested := stmtContext(s.path, s.call)
+			if kind == "" {
+				// right operand of && / || in an if condition: split the if first
+				if ifs, txt := n.splitShortCircuit(s.path, s.call); ifs != nil && !usedStmt[ifs] {
+					if n.tryEdit(ifs.Pos(), ifs.End(), txt) {
+						usedStmt[ifs] = true
+						changed = true
+						other++ // the call is still there; it is inlined in the next round
+						continue
+					}
+				}
+			}
 			if kind == "" || usedStmt[stmt] || (nested && c.fn.Type().(*types.Signature).Results().Len() != 1) {
 				n.notes = append(n.notes, fmt.Sprintf("normalise: call of new function %s at %s left as it is (unsupported statement context)", short(c.fn.FullName()), n.fset.Position(s.call.Pos())))
 				other++
